@@ -421,6 +421,42 @@ func (p *Prog) origins(v ssa.Value, opt OriginOpts) []ssa.Value {
 						}
 					}
 				}
+				// an element of a table written as a literal in this function (`for _, c := range []T{a, b}`):
+				// whatever was stored into the literal's backing array
+				if ia, ok := x.X.(*ssa.IndexAddr); ok {
+					base := ia.X
+					if sl, ok := base.(*ssa.Slice); ok {
+						base = sl.X
+					}
+					if al, ok := base.(*ssa.Alloc); ok && al.Referrers() != nil {
+						if _, isArr := al.Type().(*types.Pointer).Elem().Underlying().(*types.Array); isArr {
+							private, found := true, false
+							var vals []ssa.Value
+							for _, r := range *al.Referrers() {
+								switch y := r.(type) {
+								case *ssa.IndexAddr:
+									if y.Referrers() != nil {
+										for _, u := range *y.Referrers() {
+											if st, ok := u.(*ssa.Store); ok && st.Addr == ssa.Value(y) {
+												vals = append(vals, st.Val)
+												found = true
+											}
+										}
+									}
+								case *ssa.Slice:
+								default:
+									private = false
+								}
+							}
+							if private && found {
+								for _, sv := range vals {
+									walk(sv, depth)
+								}
+								return
+							}
+						}
+					}
+				}
 			}
 			out = append(out, v)
 		case *ssa.Index:
